@@ -4,9 +4,9 @@ CONSTANTS
   Reps = {"v", "a"}
   Clients = {"c1"}
   NSeg = 0
-  Extra = 1
+  Extra = 0
   First = 5
   Scripts <- Scripts1x4
   ErrSets <- OneErr
-  StepGuard = FALSE
+  StepGuard = TRUE
 INVARIANTS Emit
